@@ -95,7 +95,7 @@ def kernel_level(R, drv, rng, n):
                 R.samples.append(dict(mech=mech, prefix=prefix, v=float(v[n // 2]), init={k: float(init[k][n // 2]) for k in init}))
 
 
-def module_level(R, rng, ncells):
+def module_level(R, rng, ncells, drv=None):
     """Module.init_states: frame + per-row steady state, on cells with partial insertions."""
     comp = jx.Compartment()
     for c in range(ncells):
@@ -140,6 +140,8 @@ def module_level(R, rng, ncells):
                 break
             after = cell.nodes
             R.evaluations += 1
+            if drv is not None:
+                model_init_states(R, drv, before, after, chans, dict(parents=parents, ncomps=ncomps, channels=[(nm, ch._name) for nm, ch in chans], phase=phase))
             desc = dict(parents=parents, ncomps=ncomps, channels=[(nm, ch._name) for nm, ch in chans], phase=phase)
             R.distinct.add(json_key(desc))
             state_cols = set()
@@ -176,6 +178,44 @@ def module_level(R, rng, ncells):
         R.count(f"cells:{len(chans)}-channels")
 
 
+def model_init_states(R, drv, before, after, chans, desc, dt=0.025):
+    """correspondence with the Lean model of Module.init_states (Model/InitStates.lean, driver command `initst`): the model receives
+    the node table as it was BEFORE the call (voltages, parameters, states, membership flags, channels in module order) and must
+    reproduce every state column of the table AFTER the call"""
+    n = before.shape[0]
+    scols, pcols = [], []
+    for nm, ch in chans:
+        scols += [k for k in ch.channel_states if k not in scols]
+        pcols += [k for k in ch.channel_params if k not in pcols]
+    enc = lambda x: str(f2b(float(x)))
+    toks = ["initst", enc(dt), str(len(chans))]
+    for nm, ch in chans:
+        toks += [nm, ch._name]
+    toks.append(str(n))
+    for r in range(n):
+        mem = [i for i, (nm, ch) in enumerate(chans) if bool(before.loc[r, ch._name])]
+        toks += [enc(before.loc[r, "v"]), str(len(mem))] + [str(i) for i in mem]
+        toks += [str(len(scols))] + [t for k in scols for t in (k, enc(before.loc[r, k]))]
+        toks += [str(len(pcols))] + [t for k in pcols for t in (k, enc(before.loc[r, k]))]
+    out = drv.batch([" ".join(toks)])[0]
+    if not out.startswith("ok"):
+        R.disagree("initst-driver-error", input=desc, answer=out[:80]); return
+    rows = out.split()[1:]
+    if len(rows) != n:
+        R.disagree("initst-row-count", input=desc); return
+    R.count("initst:tables")
+    for r, tok in enumerate(rows):
+        if tok == "-":
+            continue
+        for kv in tok.split(","):
+            k, b = kv.rsplit("=", 1)
+            xm, xi = b2f(int(b)), float(after.loc[r, k])
+            R.count("initst:cells")
+            if not close(xm, xi, rel=1e-10, abs_=1e-13, maxulp=64):
+                R.disagree("init_states-model", input=dict(desc, row=r, key=k, v=float(before.loc[r, "v"])), impl=xi, model=xm)
+                return
+
+
 def json_key(d):
     import json
     return json.dumps(d, sort_keys=True, default=str)
@@ -187,12 +227,12 @@ def run(args):
     drv = LeanDriver()
     mult = 4 if args.mode == "search" else 1
     kernel_level(R, drv, rng, {"quick": 200, "thorough": 3000}[args.tier] * mult)
-    module_level(R, rng, {"quick": 12, "thorough": 150}[args.tier] * mult)
+    module_level(R, rng, {"quick": 12, "thorough": 150}[args.tier] * mult, drv)
     R.rule = ("kernel level: per channel (default and renamed) random v in [-120,60] + enumerated singular voltages, random vt/taumax/vx, "
               "dt in {1e-3,0.025,1,1e3}; module level: random cells with partial insertions / renamed / duplicated channels. "
               "distinct = distinct (channel, key, v) resp. distinct cell descriptions; non-trivial = steady state not 0 or 1")
     R.explanation = "fixed-point theorems over ℝ on the generated kernels; implementation sampled at kernel and Module level"
-    R.assumptions = ["IEEE rounding sampled", "Module.init_states frame checked on the implementation (pandas not modelled in Lean)"]
+    R.assumptions = ["IEEE rounding sampled", "Module.init_states: modelled in Lean (Model/InitStates.lean; frame, idempotence and steady-state theorems) and compared table-by-table with the implementation; the pandas row selection itself is restated in the model"]
     R.extra["driver_lines"] = drv.lines
     return R
 
